@@ -1,5 +1,7 @@
 """C06 — sparse feature storage is densified exactly (DESIGN.md §5 C06)."""
 import itertools
+import os
+import random
 import numpy as np
 from . import common as C
 from . import dataset as D
@@ -18,8 +20,11 @@ RULE = ('from_sparse: exhaustive (data, column table, requested channels) with <
         'between (number of cells, number of requested channels, spread of the channel ids) vary over orders of '
         'magnitude, at from_sparse level and through get_features on generated wide-probe datasets; '
         'get_features / get_template_features on generated TemplateModel datasets with and without a row '
-        '(spike id) table and column table, spike subsets in any order incl. unstored spikes, channel '
-        'permutations; PCA route: final features against the Lean model (exact projections of the stored waveforms '
+        '(spike id) table and column table (row tables listing ONE spike up to all, increasing or not; 2..4 components per '
+        'channel; -1 anywhere in a column-table row; requests naming channels the probe does not have), spike subsets in any '
+        'order incl. unstored spikes (whose rows are NOT judged: values are claimed for stored spikes only), channel '
+        'permutations; PCA route: stores as the real exporter writes them AND the same content re-laid-out (stored spikes in '
+        'any order, channels of a row in any order, -1 in the middle of a row, requested spikes taken out of the store); final features against the Lean model (exact projections of the stored waveforms '
         'onto the components the real _compute_pcs returned) + numerical residual test of the components. '
         'non-trivial = at least one stored value lands in a requested column')
 ASSUMPTIONS = ['PCA route (no feature file): np.cov / np.linalg.eigh are outside the model - the components are a parameter '
@@ -76,6 +81,30 @@ def _chans(case):
     return np.array(case['chans'], dtype='int64' if k == 'array' else k)
 
 
+def _edit_store(d, seed, drop=()):
+    """rewrite the waveform store `_phy_spikes_subset.*.npy` in directory d (deterministic in `seed`); the rows of the
+    spikes in `drop` are taken out of the store"""
+    r = random.Random(seed)
+    f = lambda n: os.path.join(d, '_phy_spikes_subset.%s.npy' % n)
+    ids, ch, wv = np.load(f('spikes')), np.load(f('channels')), np.load(f('waveforms'))
+    if ids.ndim != 1 or ch.ndim != 2 or wv.ndim != 3:
+        return
+    ids, ch, wv = ids.copy(), ch.copy(), wv.copy()
+    if len(drop):
+        k = ~np.isin(ids, np.array(list(drop), dtype=np.int64))
+        ids, ch, wv = ids[k], ch[k], wv[k]
+    if r.random() < .7:                                   # stored spikes in any order
+        p = list(range(len(ids))); r.shuffle(p)
+        ids, ch, wv = ids[p], ch[p], wv[p]
+    for k in range(len(ids)):
+        if r.random() < .6:                               # channels of the row in any order (-1 lands anywhere)
+            p = list(range(ch.shape[1])); r.shuffle(p)
+            ch[k], wv[k] = ch[k, p], wv[k][:, p]
+        if ch.shape[1] > 1 and r.random() < .3:           # one more channel dropped, not at the end
+            ch[k, r.randrange(ch.shape[1] - 1)] = -1
+    np.save(f('spikes'), ids); np.save(f('channels'), ch); np.save(f('waveforms'), wv)
+
+
 def impl(case):
     from phylib.io.model import from_sparse
     op = case['op']
@@ -97,7 +126,6 @@ def impl(case):
         if case.get('wide'):
             # wide probes: the inverse whitening matrix file is present, as in a real sorter output (the identity; the
             # loader would otherwise invert an n_channels x n_channels matrix on every load)
-            import os
             np.save(os.path.join(os.path.dirname(str(params)), 'whitening_mat_inv.npy'), np.eye(case['spec']['n_channels']))
         m = D.load(params)
         try:
@@ -115,6 +143,13 @@ def impl(case):
             elif op == 'pca':
                 from phylib.io.model import _compute_pcs
                 m.save_spikes_subset_waveforms(max_n_spikes_per_template=case['nst'], max_n_channels=case['nc'])
+                if case.get('store_edit'):
+                    # a store of the same content in a layout the exporter itself never writes: stored spikes in any
+                    # order, the channels of a row in any order, -1 anywhere in a row (that channel is then not held);
+                    # written with the stored shapes and loaded again
+                    m.close()
+                    _edit_store(os.path.dirname(str(params)), case['store_edit'], case['spike_ids'] if case.get('store_drop_requested') else ())
+                    m = D.load(params)
                 sw = m.spike_waveforms
                 ch = case['chans']
                 if sw is None or np.ndim(sw.spike_ids) == 0 or len(sw.spike_ids) < 2:
@@ -254,12 +289,14 @@ def judge(case, impl_res, ans):
         tol = 2.0 ** -18 * max(1., ok['nsw'] * ok.get('scale', 0.))
         exact = np.array([[[DC.to_float(x) for x in r] for r in blk] for blk in m], dtype=np.float64).reshape(ok['shape'])
         got = np.array(ok['out'], dtype=np.float64).reshape(ok['shape'])
-        if got.size and not (np.abs(got - exact) <= tol).all():
-            i = int(np.argmax(np.abs(got - exact).reshape(ns, -1).max(axis=1)))
-            stored = case['spike_ids'][i] in ok['sw_ids']
-            return ('SPEC: PCA route: row %d (spike %d, %s) is not %s' % (
-                i, case['spike_ids'][i], 'stored' if stored else 'not stored',
-                'the projection of its stored waveform onto the three components of each channel' if stored else 'zero'))
+        # only rows of spikes the store holds a waveform for are claimed ("the projections of each waveform"); the rows of
+        # the other spikes (zeros in the code that exists and in the model) are not judged
+        held = np.array([s_ in ok['sw_ids'] for s_ in case['spike_ids']], dtype=bool)
+        if got.size and held.any() and not (np.abs(got - exact)[held] <= tol).all():
+            err = np.where(held, np.nan_to_num(np.abs(got - exact).reshape(ns, -1), nan=np.inf).max(axis=1), -1.)
+            i = int(np.argmax(err))
+            return ('SPEC: PCA route: row %d (spike %d, stored) is not the projection of its stored waveform onto the '
+                    'three components of each channel' % (i, case['spike_ids'][i]))
         if 'resid' in ok and (ok['resid'] > 1e-3 * max(1., ok['scale'] ** 2) or not ok['order_ok']):
             return 'SPEC: PCA route: components are not the leading eigenvectors (residual %g)' % ok['resid']
         return None
@@ -304,8 +341,9 @@ def judge(case, impl_res, ans):
                 return 'SPEC: row %d (spike %d) differs from the densified stored row' % (i, case['spike_ids'][i])
     if ok.get('frac_ok') is False:
         return 'SPEC: a float64 store does not come back bit-exact (stored values were rounded)'
-    if got != m:
-        return 'CORR: rows of unstored spikes differ from the model'
+    # rows of UNSTORED spikes: the statement claims values for stored spikes only - their content (NaN before the
+    # densification in the code that exists, which the Lean model mirrors) is not judged; their presence and width are
+    # (shape, above)
     return None
 
 
@@ -337,6 +375,10 @@ def tally(rep, case, impl_res, ans):
             rep.count('pca:rows of stored spikes', sum(st))
             rep.count('pca:rows of unstored spikes', len(st) - sum(st))
             rep.count('pca:store rows padded with -1', int(any(-1 in r for r in ok['sw_channels'])))
+            rep.count('pca:store row with -1 before a channel', int(any(-1 in r[:max(i_ for i_, c_ in enumerate(r) if c_ >= 0)] for r in ok['sw_channels'] if any(c_ >= 0 for c_ in r))))
+            rep.count('pca:store ids not increasing', int(ok['sw_ids'] != sorted(ok['sw_ids'])))
+            rep.count('pca:store in a layout the exporter does not write (edited)', int(bool(case.get('store_edit'))))
+            rep.count('pca:none of the requested spikes stored', int(not any(st)))
             if case['chans'] != sorted(case['chans']):
                 rep.count('pca:unsorted channels')
             if case['spike_ids'] != sorted(case['spike_ids']):
@@ -344,6 +386,17 @@ def tally(rep, case, impl_res, ans):
     elif case['op'] in ('features', 'tfeatures'):
         nr, nloc, ind, rows = _store(case)
         rep.count('row_table:%s' % (rows is not None))
+        if rows is not None and len(rows) == 1:
+            rep.count('store_lists_ONE_spike')
+        if rows is not None and rows != sorted(rows):
+            rep.count('row_table_not_increasing')
+        if case['op'] == 'features':
+            rep.count('npcs:%d' % len(case['spec']['pc_features'][0]))
+            rep.count('one_local_channel', int(nloc == 1))
+            if any(c >= case['spec']['n_channels'] for c in case['chans']):
+                rep.count('requests_channel_the_probe_does_not_have')
+        if ind is not None and any(-1 in r for r in ind):
+            rep.count('col_table_with_-1:%s' % case['op'])
         if case.get('wide'):
             st = D.expanded(case['spec'])['spike_templates']
             tt = [st[q_] for q_ in case['spike_ids']]
@@ -365,6 +418,9 @@ def tally(rep, case, impl_res, ans):
 
 def classify(case, impl_res, ans, why):
     d = dict(op=case['op'], kind=why.split(':')[0], raised=impl_res.get('raised'), where=impl_res.get('where'))
+    if case['op'] in ('features', 'tfeatures'):
+        sp = case['spec']
+        d['a_store_lists_one_spike'] = any(len(sp.get(k) or [0, 0]) == 1 for k in ('pc_feature_spike_ids', 'template_feature_spike_ids'))
     if case['op'] in ('features', 'tfeatures'):
         nr, nloc, ind, rows = _store(case)
         d.update(row_table=rows is not None, unsorted=case['spike_ids'] != sorted(case['spike_ids']),
@@ -473,17 +529,19 @@ def gen(tier, rng):
         yield dict(p=PID, op='from_sparse', nr=nr, nloc=nloc, cols=cc, chans=chans, trailing=rng.randrange(3), cdtype=cdt,
                    dtype=rng.pick(['float64', 'float32']), chkind=rng.pick(['list', 'array', 'uint32', 'int32', 'uint16']),
                    wide=True)
-    # model level (every stored dimension >= 2: a stored dimension of size 1 is squeezed away by the
-    # loader and is out of scope, DESIGN.md C04)
+    # model level (n_pcs, the width of the template-feature store and the number of spikes of the dataset are >= 2: such a
+    # dimension of size 1 is squeezed away by the loader and is out of scope, DESIGN.md C04; n_channels_loc of the PC store
+    # goes down to 1, which the loader restores; the number of spikes a store LISTS goes down to 1 - "only a listed
+    # subset" - and a subset of one spike is a subset)
     for i in range(250 if q else 5000):
         spec = D.random_spec(rng, raw=False, feats=False, tfeats=False, ns=rng.randrange(3, 14))
         ns, nt, nc = len(spec['spike_samples']), len(spec['templates']), spec['n_channels']
-        npcs = 2
+        npcs = rng.pick([2, 2, 3, 4])
         dense = rng.random() < .3
-        nloc = nc if dense else rng.randrange(2, nc + 1)
+        nloc = nc if dense else rng.randrange(1, nc + 1)
         nsf = ns
         if rng.random() < .5:
-            keep = sorted(rng.sample(range(ns), rng.randrange(2, ns + 1)))
+            keep = sorted(rng.sample(range(ns), 1 if rng.random() < .12 else rng.randrange(2, ns + 1)))
             if rng.random() < .3:
                 rng.shuffle(keep)
             spec['pc_feature_spike_ids'] = keep
@@ -501,13 +559,18 @@ def gen(tier, rng):
         tl = rng.randrange(2, nt + 1)
         nst = ns
         if rng.random() < .5:
-            keep = sorted(rng.sample(range(ns), rng.randrange(2, ns + 1)))
+            keep = sorted(rng.sample(range(ns), 1 if rng.random() < .12 else rng.randrange(2, ns + 1)))
+            if rng.random() < .3:
+                rng.shuffle(keep)
             spec['template_feature_spike_ids'] = keep
             spec['dtypes'] = dict(spec.get('dtypes') or {}, template_feature_spike_ids=rng.pick(['int64', 'uint64', 'int32']))
             nst = len(keep)
         spec['template_features'] = [[float(r * tl + kk + 1) for kk in range(tl)] for r in range(nst)]
         if rng.random() < .8 or tl != nt:
             spec['template_feature_ind'] = [rng.sample(range(nt), tl) for _ in range(nt)]
+            if rng.random() < .3:
+                # rows padded with -1 (anywhere in the row)
+                spec['template_feature_ind'] = [[c if rng.random() < .7 else -1 for c in row] for row in spec['template_feature_ind']]
         if i % 3 == 1:
             # float64 stores whose values need double precision
             spec['feature_frac'] = True
@@ -517,8 +580,10 @@ def gen(tier, rng):
         sids = rng.sample(range(ns), rng.randrange(0 if i % 9 == 0 else 1, min(ns, 6) + 1))
         if sids and 'pc_feature_spike_ids' not in spec and i % 2:
             sids = sids + [sids[0]]            # a repeated request is served at both positions when every spike is stored
+        # requested channels: distinct, any order, now and then with channels the probe does not have
+        pool = list(range(nc)) + ([nc, nc + 1 + rng.randrange(40)] if rng.random() < .25 else [])
         yield dict(p=PID, op='features', spec=spec, spike_ids=sids, npcs_pow2=True,
-                   chans=rng.sample(range(nc), rng.randrange(1, nc + 1)), chkind=rng.pick(['list', 'array', 'uint32', 'int32', 'uint64']),
+                   chans=rng.sample(pool, rng.randrange(1, len(pool) + 1)), chkind=rng.pick(['list', 'array', 'uint32', 'int32', 'uint64']),
                    sidkind=rng.pick(['int64', 'int64', 'list', 'uint64', 'int32', 'uint32']))
         sids2 = rng.sample(range(ns), rng.randrange(1, min(ns, 6) + 1))
         if 'template_feature_spike_ids' not in spec and i % 2:
@@ -606,5 +671,13 @@ def gen(tier, rng):
         sids_p = rng.sample(range(ns), rng.randrange(1, ns + 1))
         if i % 2:
             sids_p = sorted(sids_p)
-        yield dict(p=PID, op='pca', spec=spec, spike_ids=sids_p,
-                   chans=(sorted if i % 4 < 2 else list)(rng.sample(range(nc), rng.randrange(1, nc + 1))), nst=rng.randrange(1, 4), nc=nc)
+        case = dict(p=PID, op='pca', spec=spec, spike_ids=sids_p,
+                    chans=(sorted if i % 4 < 2 else list)(rng.sample(range(nc), rng.randrange(1, nc + 1))), nst=rng.randrange(1, 4),
+                    nc=rng.pick([nc, nc, max(1, nc - 1), max(1, nc // 2)]))
+        if i % 3:
+            case['store_edit'] = rng.randrange(1, 10 ** 6)
+        if i % 6 == 4:
+            # none of the requested spikes has a stored waveform
+            case['spike_ids'] = case['spike_ids'][:rng.randrange(1, 4)]
+            case['store_drop_requested'] = True
+        yield case
